@@ -62,6 +62,15 @@ def gen_cases(tier, rng):
                 for cw in ([cwd] if cwd is not None else cwds[:4]):
                     base = pos_bases[rng.randrange(len(pos_bases))]
                     cases.append(("posix", base, cw, prefix, list(segs), rng.choice(["", "/"])))
+    # climbing: every working-directory depth against every number of leading '..' around and beyond that depth, plain and with
+    # detours ("x/../.."), with and without a tail
+    deep = [[], [["a"]], [["a"], ["b"]], [["a"], ["b"], ["c"]], [["a"], ["b"], ["c"], ["d"]], [["a"], ["a"], ["a"], ["a"], ["a"]]]
+    for cw in deep:
+        for ups in range(0, 2 * len(cw) + 3):
+            for tail in ([], [["x"]], [["a"]], [["x"], [".."]], [["."]]):
+                for lead in ([], [["x"], [".."]], [["."]]):
+                    for base in pos_bases[:2]:
+                        cases.append(("posix", base, cw, "", lead + [[".."]] * ups + tail, ""))
     win_bases = [pathlib.PureWindowsPath("C:\\ftp"), pathlib.PureWindowsPath("C:\\ftp\\users\\u"), pathlib.PureWindowsPath("data")]
     wcwds = [[], [["a"]], [["a"], ["b"]], [["a", "b"]]]
     wl = 2 if tier == "quick" else 3
